@@ -3,6 +3,8 @@ CONSTANTS
   Sent <- SentCap
   Prefix = 2
   Cap = 3
+  MaxGiveUps = 0
+  ResumeAfterTimeout = FALSE
   EofYieldsShort = FALSE
   MaxPend = 1
 CHECK_DEADLOCK FALSE
